@@ -56,6 +56,11 @@ pub struct Sc {
     /// history runs: the checker is passive (see `Checker::passive`)
     #[serde(default)]
     pub passive: bool,
+    /// annealer runs: the same annealer object is run a second time - 1 after
+    /// set_init_decomp(result of the first run), 2 after set_init_decomp(a fresh random tree),
+    /// 3 after other parameters only; each run is judged against its own start
+    #[serde(default)]
+    pub rerun: u8,
 }
 
 #[derive(Clone, Copy)]
@@ -177,6 +182,9 @@ fn structural(tree: &DecompTree, ids: &[usize]) -> Result<Vec<(usize, usize)>, S
 /// Brute-force (width, score) from the scenario's own adjacency.
 fn brute(tree: &DecompTree, sc: &Sc, edges: &[(usize, usize)]) -> (usize, usize) {
     let n = sc.ids.len();
+    if n > 128 {
+        return brute_wide(tree, sc, edges);
+    }
     let pos: BTreeMap<usize, usize> = sc.ids.iter().enumerate().map(|(i, &v)| (v, i)).collect();
     let mut adj = vec![0u128; n];
     for &(a, b) in &sc.edges {
@@ -210,6 +218,54 @@ fn brute(tree: &DecompTree, sc: &Sc, edges: &[(usize, usize)]) -> (usize, usize)
             .map(|a| adj[a] & !mask)
             .collect();
         let r = f2::rank(rows);
+        width = width.max(r);
+        score += r * r;
+    }
+    (width, score)
+}
+
+/// The same for graphs of more than 128 vertices (rows as word vectors).
+fn brute_wide(tree: &DecompTree, sc: &Sc, edges: &[(usize, usize)]) -> (usize, usize) {
+    let n = sc.ids.len();
+    let words = n.div_ceil(64);
+    let pos: BTreeMap<usize, usize> = sc.ids.iter().enumerate().map(|(i, &v)| (v, i)).collect();
+    let mut adj = vec![vec![0u64; words]; n];
+    for &(a, b) in &sc.edges {
+        adj[a][b / 64] |= 1u64 << (b % 64);
+        adj[b][a / 64] |= 1u64 << (a % 64);
+    }
+    let (mut width, mut score) = (0, 0);
+    for &(i, j) in edges {
+        let mut side = vec![false; tree.nodes.len()];
+        let mut stack = vec![i];
+        side[i] = true;
+        while let Some(x) = stack.pop() {
+            for &y in tree.nodes[x].nhd() {
+                if !(x == i && y == j) && !side[y] {
+                    side[y] = true;
+                    stack.push(y);
+                }
+            }
+        }
+        let mut mask = vec![0u64; words];
+        let mut inside = vec![false; n];
+        for (k, node) in tree.nodes.iter().enumerate() {
+            if let DecompNode::Leaf(_, v) = node {
+                if side[k] {
+                    let p = pos[v];
+                    mask[p / 64] |= 1u64 << (p % 64);
+                    inside[p] = true;
+                }
+            }
+        }
+        // the smaller side gives the rows (the rank of a matrix is that of its transpose)
+        let cnt = inside.iter().filter(|x| **x).count();
+        let rows_inside = cnt * 2 <= n;
+        let rows: Vec<Vec<u64>> = (0..n)
+            .filter(|&a| inside[a] == rows_inside)
+            .map(|a| adj[a].iter().zip(mask.iter()).map(|(x, m)| if rows_inside { x & !m } else { x & m }).collect())
+            .collect();
+        let r = f2::rank_wide(rows, n);
         width = width.max(r);
         score += r * r;
     }
@@ -558,8 +614,18 @@ impl C18 {
                 } else {
                     None
                 };
+                let rerun = sc.rerun;
+                let tree2 = if rerun == 2 {
+                    let mut rng = DeciderRng { d: &mut exec, site: "c18.init2", draws: 0, limit: 100_000 };
+                    match catch(|| DecompTree::random_decomp(&g, &mut rng)) {
+                        Caught::Ok(t) => Some(t),
+                        _ => None,
+                    }
+                } else {
+                    None
+                };
                 let res = {
-                    let rng = DeciderRng { d: &mut exec, site: "c18.anneal", draws: 0, limit: 2_000_000 };
+                    let rng = DeciderRng { d: &mut exec, site: "c18.anneal", draws: 0, limit: 4_000_000 };
                     let g2 = g.clone();
                     catch(move || {
                         let mut a = match init_given {
@@ -573,11 +639,49 @@ impl C18 {
                             .set_adaptive_cooling(*adaptive);
                         let init = a.init_decomp().clone();
                         let r = a.run();
-                        (init, r)
+                        let mut pairs = vec![(init, r.clone())];
+                        if rerun > 0 {
+                            match (rerun, tree2) {
+                                (1, _) => {
+                                    a.set_init_decomp(r);
+                                }
+                                (2, Some(t2)) => {
+                                    a.set_init_decomp(t2);
+                                }
+                                _ => {
+                                    a.set_iterations(*iterations / 2 + 1).set_adaptive_cooling(!*adaptive);
+                                }
+                            }
+                            let init2 = a.init_decomp().clone();
+                            let r2 = a.run();
+                            pairs.push((init2, r2));
+                        }
+                        pairs
                     })
                 };
                 out.steps += *iterations as u64;
-                self.judge_annealer(sc, &g, res, out, "annealer");
+                match res {
+                    Caught::Ok(pairs) => {
+                        if pairs.len() > 1 {
+                            out.probe("annealer_object_run_twice");
+                        }
+                        for (i, pr) in pairs.into_iter().enumerate() {
+                            self.judge_annealer(sc, &g, Caught::Ok(pr), out, "annealer");
+                            if i == 1 {
+                                for v in out.violations.iter_mut() {
+                                    if !v.detail.starts_with("second run") {
+                                        v.detail = format!("second run of the same annealer object (rerun mode {rerun}): {}", v.detail);
+                                    }
+                                }
+                            }
+                            if !out.violations.is_empty() {
+                                break;
+                            }
+                        }
+                    }
+                    Caught::Panic(m) => self.judge_annealer(sc, &g, Caught::Panic(m), out, "annealer"),
+                    Caught::Budget => self.judge_annealer(sc, &g, Caught::Budget, out, "annealer"),
+                }
             }
             Mode::RankDecomp => {
                 let core = Core::new(exec, 1);
@@ -692,6 +796,10 @@ impl Property for C18 {
     }
     fn sub_batches(&self) -> Vec<SubBatch> {
         vec![
+            // (first, so that these long runs overlap with the rest of the batch)
+            // a few graphs of 520..560 vertices with wide cuts (rank beyond 255): integer widths of
+            // cached ranks and of the score
+            SubBatch { name: "huge", quick: 3, thorough: 60 },
             SubBatch { name: "history", quick: 60_000, thorough: 4_000_000 },
             SubBatch { name: "annealer", quick: 40_000, thorough: 1_200_000 },
             SubBatch { name: "rank_decomp", quick: 400, thorough: 20_000 },
@@ -728,6 +836,8 @@ impl Property for C18 {
                 // graphs: only there can an accepted move lower the one and raise the other
                 _ => d.range("n", 15, 26) as usize,
             }
+        } else if sub == "huge" {
+            520 + d.choose("n.huge", 41)
         } else if sub == "small_long" {
             3 + d.choose("n.small", 3)
         } else {
@@ -762,10 +872,14 @@ impl Property for C18 {
             ids.push(next);
             next += 1;
         }
-        let density = match d.choose("density.kind", 8) {
+        let density = if sub == "huge" {
+            d.range("density.huge", 35, 65)
+        } else {
+            match d.choose("density.kind", 8) {
             0 => 0,
             1 => 100,
             _ => d.range("density", 5, 95),
+            }
         };
         let mut edges = vec![];
         for a in 0..n {
@@ -776,6 +890,7 @@ impl Property for C18 {
             }
         }
         let mode = match sub {
+            "huge" => Mode::History { ops: vec![Op::Score, Op::SwapLeaves, Op::Rankwidth, Op::MoveSubtree, Op::Score] },
             "history" | "small_long" => {
                 let len = if sub == "small_long" { 150 + d.choose("len.long", 250) } else { 1 + d.choose("len", 60) };
                 // per-run operation mix (swarm style)
@@ -819,8 +934,10 @@ impl Property for C18 {
             },
             _ => Mode::RankDecomp,
         };
-        let passive = (sub == "history" || sub == "small_long") && d.coin("passive", 1, 3);
-        Sc { ids, edges, hash_backend: d.coin("backend", 1, 2), mode, passive }
+        // (the huge graphs run with the passive checker: the full one recomputes everything three times)
+        let passive = sub == "huge" || ((sub == "history" || sub == "small_long") && d.coin("passive", 1, 3));
+        let rerun = if sub == "annealer" && d.coin("rerun", 1, 3) { 1 + d.choose("rerun.kind", 3) as u8 } else { 0 };
+        Sc { ids, edges, hash_backend: d.coin("backend", 1, 2), mode, passive, rerun }
     }
 
     fn execute(&self, sc: &Sc, _sub: &str, exec: Decider, _env: &Env) -> RunOut {
@@ -847,6 +964,13 @@ impl Property for C18 {
 
     fn shrink(&self, sc: &Sc) -> Vec<Sc> {
         let mut c = vec![];
+        if sc.ids.len() > 100 {
+            // the huge graphs: each candidate costs seconds; keep the scenario as found
+            return c;
+        }
+        if sc.rerun != 0 {
+            c.push(Sc { rerun: 0, ..sc.clone() });
+        }
         if let Mode::History { ops } = &sc.mode {
             if ops.len() > 1 {
                 let h = ops.len() / 2;
